@@ -822,3 +822,78 @@ def run_plumbing(ctx, rep):
                          dict(case.signature(site=f"{case.name}.fit")), case=case.describe())
     if lines:
         rep.sample(dict(line=lines[0], impl=expect[0], model=decode(outs[0])))
+
+
+# ------------------------------------------------------------------ C18: solver objects are not a channel between solves
+def run_solver_state(ctx, rep):
+    """a solver object reused for several solves (what GeneralizedLinearEstimator and IterativeReweightedL1 do): its
+    hyper-parameters are the same before and after each solve, and the second solve returns what a fresh solver returns"""
+    import copy as _copy
+    from .. import bbox
+    from ..impl import seed_numba
+    rng = ctx.rng
+
+    def snap(obj):
+        return {k: (v.copy() if isinstance(v, np.ndarray) else _copy.deepcopy(v)) for k, v in vars(obj).items()}
+
+    def same_state(a, b_):
+        return a.keys() == b_.keys() and all(
+            (np.array_equal(a[k], b_[k]) if isinstance(a[k], np.ndarray) else a[k] == b_[k]) for k in a)
+    for _ in range(ctx.n(24, 240)):
+        solver_name = rng.choice(["AndersonCD", "AndersonCD", "ProxNewton", "GroupBCD", "MultiTaskBCD", "GramCD", "FISTA"])
+        c1 = bbox.gen_bb(rng, solver_name) if solver_name != "AndersonCD" else None
+        if c1 is None:
+            from .. import solvers as S_
+            a1, a2 = S_.gen_case(rng), S_.gen_case(rng)
+            from skglm.solvers import AndersonCD
+            from ..impl import compiled_df, compiled_pen, Pen as _Pen
+
+            def objs(cs):
+                return (compiled_df(cs.df, cs.sw), compiled_pen(cs.pen, cs.wts if cs.pen.kind in _Pen.WEIGHTED else None),
+                        np.asfortranarray(cs.X), cs.y.copy())
+            knobs = dict(a2.knobs)
+            shared = AndersonCD(**knobs)
+            fresh = AndersonCD(**knobs)
+            cases = [objs(a1), objs(a2)]
+            desc = dict(solver="AndersonCD", knobs=knobs, first=a1.describe(), second=a2.describe())
+        else:
+            c2 = bbox.gen_bb(rng, solver_name)
+            if c2.family != c1.family:
+                continue
+            shared, d1, p1 = c1.build()
+            _, d2, p2 = c2.build()
+            shared = type(shared)(**c2.knobs)
+            fresh = type(shared)(**c2.knobs)
+            cases = [(d1, p1, np.asfortranarray(c1.X), np.asfortranarray(c1.y.copy()) if c1.family == "mtl" else c1.y.copy()),
+                     (d2, p2, np.asfortranarray(c2.X), np.asfortranarray(c2.y.copy()) if c2.family == "mtl" else c2.y.copy())]
+            desc = dict(solver=solver_name, knobs=c2.knobs, first=c1.describe(), second=c2.describe())
+        sig = dict(site=f"{solver_name}.solve", solver=solver_name)
+        rep.count(f"solver-state:{solver_name}", False, ("sstate", len(rep.nontrivial)))
+        before = snap(shared)
+        outs = []
+        try:
+            for d_, p_, X_, y_ in cases:
+                if hasattr(d_, "initialize") and d_ is not None:
+                    d_.initialize(X_, y_)
+                seed_numba()
+                outs.append(shared.solve(X_, y_, d_, p_))
+                after = snap(shared)
+                if not same_state(before, after):
+                    rep.violate(f"{solver_name}.solve changes the solver's own hyper-parameters",
+                                dict(sig, kind="solver-state-modified"), case=desc,
+                                impl_output=dict(before={k: str(v) for k, v in before.items()},
+                                                 after={k: str(v) for k, v in after.items()}))
+                    break
+            d_, p_, X_, y_ = cases[1]
+            if hasattr(d_, "initialize") and d_ is not None:
+                d_.initialize(X_, y_)
+            seed_numba()
+            ref_out = fresh.solve(X_, y_, d_, p_)
+        except Exception:    # noqa: BLE001  (invalid compositions are C13's business)
+            continue
+        if len(outs) == 2:
+            w2, wf = np.asarray(outs[1][0], float), np.asarray(ref_out[0], float)
+            if w2.shape != wf.shape or not np.allclose(w2, wf, rtol=1e-9, atol=1e-11, equal_nan=True):
+                rep.violate(f"{solver_name}: the result of a solve depends on the solves performed before with the same solver "
+                            "object", dict(sig, kind="solver-history-dependence"), case=desc,
+                            impl_output=dict(after_history=w2.tolist(), fresh=wf.tolist()))
